@@ -189,7 +189,23 @@ func Run(p *Prop, tier string, seed uint64, dir string) error {
 		}
 		lines = append(lines, s)
 	}
-	// corpus first
+	// corpus first: minimised past failures kept under $ZV_CORPUS/<ID>/*.txt (one case line per line)
+	if dir := os.Getenv("ZV_CORPUS"); dir != "" {
+		files, _ := filepath.Glob(filepath.Join(dir, p.ID, "*.txt"))
+		sort.Strings(files)
+		for _, f := range files {
+			b, err := os.ReadFile(f)
+			if err != nil {
+				continue
+			}
+			for _, l := range strings.Split(string(b), "\n") {
+				l = strings.TrimSpace(l)
+				if l != "" && !strings.HasPrefix(l, "#") {
+					lines = append(lines, l)
+				}
+			}
+		}
+	}
 	p.Gen(g)
 	return execAndWrite(p, tier, seed, dir, lines, t0)
 }
